@@ -13,6 +13,26 @@ func Main(args []string) int {
 		return 2
 	}
 	switch args[0] {
+	case "escapes":
+		// list the places where a package-level-rooted pointer is stored into a heap object
+		P, err := Load("/repo")
+		if err != nil {
+			fmt.Println(err)
+			return 2
+		}
+		S, err := LoadSpecs("/repo", "/verif/contracts")
+		if err != nil {
+			fmt.Println(err)
+			return 2
+		}
+		E := NewEngine(P, S)
+		pa := E.provenance()
+		for _, n := range E.P.SortedFuncNames() {
+			for _, g := range pa.sums[E.P.Funcs[n]].GE {
+				fmt.Printf("%s %s: %s %v\n", n, shortFile(g.Pos), g.Via, g.Globals)
+			}
+		}
+		return 0
 	case "cycles":
 		// print the recursion cycles that pass through no declared depth guard
 		P, err := Load("/repo")
